@@ -19,7 +19,9 @@ def stmt_shapes(rng, n, ctxkind):
              "return " + rng.choice(ret_ok), "return " + rng.choice(ret_bad),
              "if true then %s end", "if 1 then %s end", "if x < 2 then %s else %s end", "loop %s break end", "loop %s end break",
              "loop loop break end break end", "loop if true then break end continue end", "if 'a' then return %s end" % rng.choice(ret_ok),
-             "set z to true + 1", "set z to 1 and 2", "set z to 'a' - 'b'", "set z to not 1", "set z to head 3", "return x"]
+             "set z to true + 1", "set z to 1 and 2", "set z to 'a' - 'b'", "set z to not 1", "set z to head 3", "return x",
+             "set w to head x", "set w to tail y", "set w to y and true", "if y and true then %s end", "set w to x - true", "set w to x * '2'", "set x to matchLength", "set y to matchLength > 3",
+             "set w to x + 1", "if x then %s end"]
     out = []
     for _ in range(n):
         k = rng.choice([1, 2, 3])
@@ -94,6 +96,20 @@ def run(ctx):
                 src = "set p to pattern 'a' begin %s end\nfind all p" % body
             cases.append({"src": src, "texts": ["a", "ab"]})
             meta.append(("stmts", ctxkind, None))
+    # several definitions in one program: each is checked in its own environment (a name assigned in one is an unknown name, hence a string, in the others)
+    for _ in range(300 if quick else 4000):
+        defs, uses = [], []
+        for i in range(rng.choice([2, 2, 3])):
+            ctxkind = rng.choice(["transform", "predicate"])
+            body = stmt_shapes(rng, 1, ctxkind)[0]
+            if ctxkind == "transform":
+                defs.append("set f%d to transform %s end" % (i, body))
+            else:
+                defs.append("set p%d to pattern 'a' begin %s end" % (i, body))
+                uses.append("p%d" % i)
+        src = "\n".join(defs) + "\nfind all " + (" ".join(uses) if uses else "'a'")
+        cases.append({"src": src, "texts": ["a", "aaa"]})
+        meta.append(("stmts", "several definitions", None))
     gres, dis, stats = corr_core.run_core(cases, shards=12, spec=False)
     def known(case, d):
         k = known_core(case, d)
@@ -123,7 +139,7 @@ def run(ctx):
     ctx.coverage["exhaustive_cells"] = True
     ctx.coverage["rule"] = ("every (operator, left type, right type) cell and every (unary operator, type) cell with several operand expressions per type: accept iff the documented table "
                             "lists it; statement lists of size 1..3 over set/if/loop/break/continue/return/debug in predicate and transform context: accept/reject and error class equal to "
-                            "the model's checker; accepted programs are run; non-trivial = distinct cells / statement lists")
+                            "the model's checker; programs with two or three definitions sharing variable names; accepted programs are run; non-trivial = distinct cells / statement lists")
     ctx.sample({"source": cases[0]["src"]})
     ctx.sample({"source": cases[-1]["src"]})
 
